@@ -169,6 +169,18 @@ def targeted_programs():
                              "lc": "Water", "label": "foreign"},
                             {"op": opn, "lw": 0, "wells": W([3, 4]), "tips": T([4, 5]), "vols": {"k": "l", "x": [5, 6]}, "lc": "Water", "label": "list"}]
                 progs.append(h)
+    # deck positions at the limits of their ranges (grid 1..67, site 1..128), both arms, a trough served by all eight tips
+    for grid, site in ((67, 127), (1, 0), (67, 0), (1, 127)):
+        lw2 = [gen.mk_plate("plate", 8, 3, 0, 3000, [1500] * 24), gen.mk_trough("trough", 8, 2, 0, 50000, [25000, 25000])]
+        lw2[0]["grid"], lw2[0]["site"] = grid, site
+        lw2[1]["grid"], lw2[1]["site"] = (grid % 67) + 1, (site + 1) % 128
+        h = gen.header(f"evo/position-limits-{grid}-{site}", "evo", Fraction(1), 950, lw2, flags={"comp": False, "norm": False})
+        h["ops"] = [{"op": "evo_aspirate", "lw": 0, "wells": W([0, 3, 7], 1), "tips": T([1, 4, 8]), "vols": {"k": "l", "x": [10, 20, 30]}, "lc": "Water free dispense", "label": "plate",
+                     "arm": I(1)},
+                    {"op": "evo_aspirate", "lw": 1, "wells": W(list(range(8)), 1), "tips": T(list(range(1, 9))), "vols": {"k": "l", "x": [1, 2, 3, 4, 5, 6, 7, 8]}, "lc": "Trough", "label": "all tips in one trough column"},
+                    {"op": "evo_dispense", "lw": 1, "wells": W(list(range(8)), 0), "tips": T(list(range(1, 9))), "vols": {"k": "s", "x": 950}, "lc": "Trough", "label": None, "arm": I(0)},
+                    {"op": "evo_dispense", "lw": 0, "wells": W([7], 2), "tips": T([8]), "vols": {"k": "s", "x": 0}, "lc": "L", "label": "nothing"}]
+        progs.append(h)
     for name, wells, tips, vols in cases:
         for opn in ("evo_aspirate", "evo_dispense"):
             h = gen.header(f"evo/{name}-{opn}", "evo", Fraction(1), 950, lws(), flags={"comp": False, "norm": False})
